@@ -1,3 +1,69 @@
-From Ebml Require Import Base Tools Spec Reader.
-Example C02_ex : ebml_size 127 1 = SUnknown /\ ebml_size 127 2 = SKnown 127.
-Proof. vm_compute. split; reflexivity. Qed.
+(* C02 — reading, re-writing and reading again is a fixpoint.  Statements only.
+   PARTIAL: proved for the byte streams that are encodings of conforming documents (Model/Encode.v rtree: any nesting, any
+   payload bytes the declared type decodes — zero-padded or empty integers, 4-byte floats —, any size width, any subset of
+   masters of unknown size, closed by a following element or the end of input), with declared paths without global
+   placeholders.  Streams the strict reader accepts only up to an error, mid-document starts and global elements are
+   covered by the correspondence run (read → write → read on mutated and hand-crafted streams). *)
+From Ebml Require Import Base Tools Spec Writer Reader Pure Encode Proofs.Tactics Proofs.WriterProofs Proofs.PureProofs Proofs.RoundTrip Proofs.WriteEnc Proofs.Fixpoint.
+
+(* [canon f]: the same tags in the writer's default encoding; [sized c t]: its sizes stay below 2^56-1 and the reader's limit.
+   The writer accepts every tag the reader emitted (in particular everything the reader accepts as hierarchy-valid), emits the
+   canonical encoding, and the second read yields the tags of the first. *)
+Theorem C02_fixpoint_partial : forall c f, strict c -> c_buffered c = [] -> c_emit_eof c = true -> Forall (conf c []) f ->
+  Forall (sized c) (map canon f) ->
+  let first := p_run c (enc_forest f) [RAll] in
+  let written := run_writer (c_sp c) (map default_write (run_tags first)) [] in
+  Forall (fun r => fst r = WOk) (fst written) /\
+  snd written = enc_forest (map canon f) /\
+  map out_tag (p_run c (snd written) [RAll]) = map out_tag first.
+Proof. exact read_write_read. Qed.
+
+(* decoded values are always in the range the encoders invert: the decoders' results re-encode to payloads that decode to
+   the same value (with C16_writer_uint / _sint / _float) *)
+Theorem C02_values_in_range : forall ty pl v, wf_bytes pl -> ty <> DMaster -> decodes (Some ty) pl v -> vshape ty v /\ vok v.
+Proof. exact decodes_shape. Qed.
+
+Definition C02_sp : spec :=
+  [ {| e_id := 129; e_ty := DMaster; e_path := [] |}; {| e_id := 16641; e_ty := DUInt; e_path := [PId 129] |};
+    {| e_id := 16644; e_ty := DFloat; e_path := [PId 129] |}; {| e_id := 16645; e_ty := DSInt; e_path := [PId 129] |} ].
+Definition C02_cfg : cfg :=
+  {| c_sp := C02_sp; c_allow_id := false; c_allow_hier := false; c_allow_over := false; c_max := Some 4000000000; c_buffered := [];
+     c_emit_eof := true |}.
+(* unknown-size root closed by the end of input; a zero-padded unsigned 5 behind an 8-byte size field; the 4-byte float 1.5;
+   an empty signed integer (= 0) *)
+Definition C02_doc : list rtree :=
+  [ RNode 129 None [ RLeaf 16641 (VU 5) [0; 0; 5] 8%nat; RLeaf 16644 (VF 4609434218613702656) [63; 192; 0; 0] 1%nat;
+                     RLeaf 16645 (VI 0) [] 2%nat ] ].
+
+Example C02_ex_hyps : strict C02_cfg /\ Forall (conf C02_cfg []) C02_doc /\ Forall (sized C02_cfg) (map canon C02_doc).
+Proof.
+  assert (I1 : idok 129) by (exists 1%nat, 1; repeat split; cbn; lia).
+  assert (I2 : idok 16641) by (exists 2%nat, 257; repeat split; cbn; lia).
+  assert (I3 : idok 16644) by (exists 2%nat, 260; repeat split; cbn; lia).
+  assert (I4 : idok 16645) by (exists 2%nat, 261; repeat split; cbn; lia).
+  split; [repeat split|]. split.
+  - assert (L1 : conf C02_cfg [129] (RLeaf 16641 (VU 5) [0; 0; 5] 8%nat)).
+    { split; [exact I2|]. split; [lia|]. split; [vm_compute; reflexivity|]. split; [repeat constructor; lia|].
+      split; [exists DUInt; split; [reflexivity|split; [discriminate|reflexivity]]|]. split; [reflexivity|vm_compute; discriminate]. }
+    assert (L2 : conf C02_cfg [129] (RLeaf 16644 (VF 4609434218613702656) [63; 192; 0; 0] 1%nat)).
+    { split; [exact I3|]. split; [lia|]. split; [vm_compute; reflexivity|]. split; [repeat constructor; lia|].
+      split; [exists DFloat; split; [reflexivity|split; [discriminate|reflexivity]]|]. split; [reflexivity|vm_compute; discriminate]. }
+    assert (L3 : conf C02_cfg [129] (RLeaf 16645 (VI 0) [] 2%nat)).
+    { split; [exact I4|]. split; [lia|]. split; [vm_compute; reflexivity|]. split; [constructor|].
+      split; [exists DSInt; split; [reflexivity|split; [discriminate|reflexivity]]|]. split; [reflexivity|vm_compute; discriminate]. }
+    constructor; [|constructor]. apply conf_node. split; [exact I1|]. split; [intros sl Hsl; discriminate Hsl|].
+    split; [reflexivity|]. split; [reflexivity|]. split; [exact I|].
+    constructor; [exact L1|constructor; [exact L2|constructor; [exact L3|constructor]]].
+  - constructor; [|constructor]. cbn [map]. rewrite canon_node. apply sized_node.
+    split; [vm_compute; reflexivity|]. split; [vm_compute; discriminate|].
+    repeat constructor; try (vm_compute; reflexivity); try (vm_compute; discriminate).
+Qed.
+
+Example C02_ex_run :
+  let first := p_run C02_cfg (enc_forest C02_doc) [RAll] in
+  let written := run_writer C02_sp (map default_write (run_tags first)) [] in
+  map out_tag first = [Some (TStart 129); Some (TElem 16641 (VU 5)); Some (TElem 16644 (VF 4609434218613702656)); Some (TElem 16645 (VI 0));
+                       Some (TEnd 129); None] /\
+  snd written = [129; 147; 65; 1; 129; 5; 65; 4; 136; 63; 248; 0; 0; 0; 0; 0; 0; 65; 5; 129; 0] /\
+  map out_tag (p_run C02_cfg (snd written) [RAll]) = map out_tag first.
+Proof. vm_compute. repeat split; reflexivity. Qed.
